@@ -25,6 +25,7 @@ def sig(ev):
     gc = ev.get("getcounts") or {}
     s["q_read"] = any(k.startswith("Q") and v > 0 for k, v in gc.items())
     s["p_reread"] = any(k.startswith("P") and v > 1 for k, v in gc.items())
+    s["probe"] = ev.get("probe", "")
     return s
 
 
@@ -35,7 +36,7 @@ def desc(ev):
 
 
 def to_case(ev):
-    return {"src": ev["c"]["src"], "repeats": 64, "env": ev["env"], "strings": ev["strings"]}
+    return {"src": ev["c"]["src"], "repeats": 300 if ev.get("probe") else 64, "env": ev["env"], "strings": ev["strings"], "probe": ev.get("probe", "")}
 
 
 def run(ctx, replay):
@@ -46,6 +47,8 @@ def run(ctx, replay):
     a = ctx.tlc_model("MC_InterpWalk", None, cfg_text=MC % (4 if thorough else 3), label="MC_InterpWalk", workers=8, timeout=1800)
     b = ctx.tlc_model("MC_InterpOMap", "MC_InterpOMap", label="MC_InterpOMap (ordered maps, slot level)", workers=4, timeout=1800)
     traces, sums = vlib.drive_gen(ctx, "c04", 8, extra=["-n", 400 if thorough else 60, "-repeats", 32 if thorough else 8])
+    t3, _ = vlib.drive_gen(ctx, "c04", 1, extra=["-probes", 1], tag="probes")
+    traces += t3
     n, bad = vlib.judge(ctx, "Trace_InterpWalk", traces, timeout=3000)
     vlib.report_bad(ctx, bad, sig, desc, lambda ev: {"cases": [to_case(ev)], "event": {k: ev[k] for k in ev if k not in ("before", "after")}},
                     vlib.confirm_by_cases(ctx, "c04", "Trace_InterpWalk"))
